@@ -50,7 +50,15 @@ class Models:
         imp = impure_primitive(c.text)
         if imp:
             ex.notes.setdefault('impure', []).append(f'{imp}: {c.text[:160]}')
-            raise Unsupported(f'IMPURE primitive reached ({imp}): `{c.text[:200]}`')
+            if imp == 'iteration over a hash-ordered collection' and not getattr(ex.prog, 'strict_impure', True) and args and isinstance(deref(args[0]), Iter):
+                imp = None   # an adaptor on an iterator that was already taken in insertion order: ordinary model below
+            elif imp == 'iteration over a hash-ordered collection' and not getattr(ex.prog, 'strict_impure', True) and args and isinstance(deref(args[0]), SetObj):
+                # outside C20 a HashSet is walked in insertion order (one of the orders the real program can take); every verdict
+                # reached this way is replayed against the real macro, so an order-dependent outcome shows up as a replay mismatch
+                t_ = deref(args[0])
+                return Iter('list', t_.items, 'val' if c.method.startswith('into_') or c.method == 'drain' else 'ref')
+            if imp:
+                raise Unsupported(f'IMPURE primitive reached ({imp}): `{c.text[:200]}`')
         for k in self.key_candidates(c):
             fn = self.table.get(k)
             if fn:
@@ -1744,11 +1752,27 @@ def _res_unwrap_or(ex, c, a):
     raise Unsupported('unwrap_or_default')
 
 
+CHAR_PREDS = {'is_alphabetic': str.isalpha, 'is_alphanumeric': str.isalnum, 'is_numeric': str.isnumeric, 'is_ascii_digit': lambda ch: ch.isascii() and ch.isdigit(),
+              'is_ascii_alphabetic': lambda ch: ch.isascii() and ch.isalpha(), 'is_ascii_alphanumeric': lambda ch: ch.isascii() and ch.isalnum(),
+              'is_uppercase': str.isupper, 'is_lowercase': str.islower, 'is_whitespace': str.isspace,
+              'is_ascii_uppercase': lambda ch: ch.isascii() and ch.isupper(), 'is_ascii_lowercase': lambda ch: ch.isascii() and ch.islower()}
+
+
 @model('str::starts_with', 'str::ends_with', 'str::contains')
 def _str_pred(ex, c, a):
     s_, p = deref(a[0]), deref(a[1])
     if isinstance(s_, Ident):
         s_ = ident_string(s_)
+    if isinstance(p, FnItem):
+        # a `char` predicate as pattern (`s.starts_with(char::is_alphabetic)`)
+        pred = CHAR_PREDS.get(p.path.split('::')[-1].split('<')[0])
+        if pred is None or not isinstance(s_, str):
+            raise Unsupported(f'{c.method} with pattern {p.path} on {"a symbolic string" if not isinstance(s_, str) else "a string"}')
+        if c.method == 'starts_with':
+            return bool(s_) and pred(s_[0])
+        if c.method == 'ends_with':
+            return bool(s_) and pred(s_[-1])
+        return any(pred(ch) for ch in s_)
     if isinstance(s_, str) and isinstance(p, str):
         return {'starts_with': s_.startswith(p), 'ends_with': s_.endswith(p), 'contains': p in s_}[c.method]
     zs = s_ if isinstance(s_, z3.ExprRef) else z3.StringVal(s_)
@@ -1845,6 +1869,8 @@ def into_iter(ex, v):  # noqa: F811
         return Iter('list', t.fields[0], 'ref' if isinstance(v, Ptr) else 'val')
     if isinstance(t, SetObj):
         ex.notes.setdefault('impure', []).append('iteration over a hash-ordered collection (HashSet)')
+        if not getattr(ex.prog, 'strict_impure', True):
+            return Iter('list', t.items, 'ref' if isinstance(v, Ptr) else 'val')
         raise Unsupported('IMPURE primitive reached (iteration over a hash-ordered collection)')
     return _old_into_iter(ex, v)
 
@@ -2106,3 +2132,112 @@ def _it_misc(ex, c, a):
             dropping = False
             out.append(x)
     return Iter('list', out, 'val')
+
+
+@model('str::strip_prefix', 'str::strip_suffix')
+def _strip_fix(ex, c, a):
+    s_ = deref(a[0])
+    p = deref(a[1])
+    if isinstance(p, int):
+        p = chr(p)
+    if isinstance(s_, Ident):
+        s_ = ident_string(s_)
+    pre = c.method == 'strip_prefix'
+    if isinstance(s_, str) and isinstance(p, str):
+        if (s_.startswith(p) if pre else s_.endswith(p)):
+            return Some(s_[len(p):] if pre else s_[:len(s_) - len(p)])
+        return NONE()
+    zs = s_ if isinstance(s_, z3.ExprRef) else z3.StringVal(s_)
+    zp = p if isinstance(p, z3.ExprRef) else z3.StringVal(p)
+    if ex.branch(z3.PrefixOf(zp, zs) if pre else z3.SuffixOf(zp, zs), c.method):
+        n = z3.Length(zp)
+        return Some(z3.SubString(zs, n, z3.Length(zs) - n) if pre else z3.SubString(zs, 0, z3.Length(zs) - n))
+    return NONE()
+
+
+@model('str::trim_start_matches', 'str::trim_end_matches', 'str::trim_matches')
+def _trim_matches(ex, c, a):
+    s_ = deref(a[0])
+    p = deref(a[1])
+    if isinstance(p, int):
+        p = chr(p)
+    if isinstance(s_, Ident):
+        s_ = ident_string(s_)
+    if isinstance(s_, z3.ExprRef) and isinstance(p, str) and p and c.method == 'trim_start_matches':
+        # solver-valued string: strip up to four occurrences, branching on the prefix test each time
+        zp = z3.StringVal(p)
+        for _ in range(4):
+            if not ex.branch(z3.PrefixOf(zp, s_), 'trim_start_matches'):
+                return s_
+            s_ = z3.SubString(s_, len(p), z3.Length(s_) - len(p))
+        if ex.branch(z3.PrefixOf(zp, s_), 'trim_start_matches'):
+            raise Unsupported('trim_start_matches: more than four repetitions of the pattern in a symbolic string')
+        return s_
+    if not (isinstance(s_, str) and isinstance(p, str) and p):
+        raise Unsupported(c.method + ' of a symbolic string')
+    if c.method in ('trim_start_matches', 'trim_matches'):
+        while s_.startswith(p):
+            s_ = s_[len(p):]
+    if c.method in ('trim_end_matches', 'trim_matches'):
+        while s_.endswith(p):
+            s_ = s_[:len(s_) - len(p)]
+    return s_
+
+
+@model('Vec::as_slice', 'Vec::as_mut_slice', 'slice::as_ref', 'Vec::as_ref')
+def _as_slice(ex, c, a):
+    return a[0]
+
+
+@model('slice::to_vec', 'slice::to_owned')
+def _to_vec(ex, c, a):
+    return VecObj([clone_val(x) for x in _items(ex, a[0]).items])
+
+
+@model('slice::join', 'Vec::join', 'slice::concat')
+def _join(ex, c, a):
+    parts = [deref(x) for x in _items(ex, a[0]).items]
+    sep = deref(a[1]) if len(a) > 1 else ''
+    out = []
+    for i, x in enumerate(parts):
+        if i and sep != '':
+            out.append(sep)
+        out.append(ident_string(x) if isinstance(x, Ident) else x)
+    return concat_parts(out) if out else ''
+
+
+RUST_KEYWORDS_STRICT = {'as', 'break', 'const', 'continue', 'crate', 'else', 'enum', 'extern', 'false', 'fn', 'for', 'if', 'impl', 'in', 'let', 'loop', 'match',
+                        'mod', 'move', 'mut', 'pub', 'ref', 'return', 'self', 'Self', 'static', 'struct', 'super', 'trait', 'true', 'type', 'unsafe', 'use',
+                        'where', 'while', 'async', 'await', 'dyn', 'abstract', 'become', 'box', 'do', 'final', 'macro', 'override', 'priv', 'typeof', 'unsized',
+                        'virtual', 'yield', 'try'}
+
+
+@model('parse_str')
+def _parse_str(ex, c, a):
+    """syn::parse_str::<syn::Ident>(&str) on a concrete string"""
+    if 'Ident' not in (c.generics or c.text):
+        raise Unsupported('parse_str target ' + (c.generics or c.text))
+    s_ = deref(a[0])
+    if not isinstance(s_, str):
+        raise Unsupported('parse_str of a symbolic string')
+    ok = re.match(r'^[A-Za-z_][A-Za-z0-9_]*$', s_) is not None and s_ not in RUST_KEYWORDS_STRICT and s_ != '_'
+    if ok:
+        return Ok(Ident(s_, CALL_SITE, 'macro'))
+    return Err(Obj('Error', None, [CALL_SITE, 'expected identifier'], ['span', 'message']))
+
+
+@model('str::repeat')
+def _str_repeat(ex, c, a):
+    s_ = deref(a[0])
+    n = a[1]
+    if isinstance(s_, str) and isinstance(n, int):
+        return s_ * n
+    raise Unsupported('str::repeat with symbolic operands')
+
+
+@model('str::chars')
+def _str_chars2(ex, c, a):
+    s_ = deref(a[0])
+    if isinstance(s_, Ident):
+        s_ = ident_string(s_)
+    return Iter('chars', s_)
